@@ -19,8 +19,9 @@ def esc(t):
 
 IDENT = set("abcdefghijklmnopqrstuvwxyzABCDEFGHIJKLMNOPQRSTUVWXYZ0123456789_")
 
-def follower_ok(kind, nxt):
-    """may the source text `nxt` directly follow an expression ending in `kind` without extending it?"""
+def follower_ok(kind, nxt, whole=False):
+    """may the source text `nxt` directly follow an expression ending in `kind` without extending it?
+    whole: nxt is everything that follows up to the end of the template (no quote can appear later)"""
     if nxt == "": return True
     c = nxt[0]
     if c in "([{": return False
@@ -31,7 +32,7 @@ def follower_ok(kind, nxt):
         rest = nxt[1:] if c == "." else nxt[2:]
         if rest == "": return True
         d = rest[0]
-        if d == '"' and '"' not in rest[1:]: return True      # an unterminated string literal is not an expression: `@name."` is the name, then text
+        if whole and d == '"' and '"' not in rest[1:]: return True      # an unterminated string literal is not an expression: `@name."` is the name, then text
         if d in IDENT or d in '&*"([': return False
         return True
     return True
@@ -145,6 +146,8 @@ class Gen:
                                   else [("text", " "), ("cmt", " todo "), ("text", "\n")] if r < 0.36
                                   else self.dironly(depth - 1, nlocals) if r < 0.5 and depth > 1 else self.items(depth - 1, nlocals))
                 out.append(("call", name, R.randrange(NEXPR + nlocals), blocks))
+        if not top and out and out[-1][0] != "text" and R.random() < 0.2:
+            out.append(("text", R.choice([" ", "\n", "\n    ", "\t", " \r\n"])))      # only white space between the last item and the closing brace
         return out
 
     def dironly(self, depth, nlocals):
